@@ -9,10 +9,12 @@ import "fmt"
 // a round completes as soon as every known member has joined).
 
 type GroupOptions struct {
-	MinJoin      int                                 // the first round completes only when this many members joined
-	PreferLeader string                              // elected leader whenever it is a member
-	MemberID     func(clientID string, n int) string // id of the n-th new member
-	Listing      func(ids []string) []string         // order of the member list in the leader's JoinGroup response
+	MinJoin      int                                                               // the first round completes only when this many members joined
+	PreferLeader string                                                            // elected leader whenever it is a member
+	MemberID     func(clientID string, n int) string                               // id of the n-th new member
+	OnRound      func(gen int32, leader string, members []string)                  // a join round completed (called with the cluster locked)
+	OnSync       func(member string, gen int32, asg map[string][]byte, code int16) // a SyncGroup request was handled (cluster locked)
+	Listing      func(ids []string) []string                                       // order of the member list in the leader's JoinGroup response
 }
 
 func (c *Cluster) memberIDFor(clientID string, n int) string {
